@@ -61,19 +61,29 @@ def graph(name, need_mc=False):
     return g["init"], g["adj"], g["descs"], res
 
 
-def select_for(prop):
-    """edge predicate focusing a tour on what the property is about"""
-    def sel(s, d, lab):
-        if prop == "C07":
-            return lab.startswith("No(") and '"nocontext"' not in lab and '"readonly"' not in lab
-        if prop == "C08":
-            return ('"nocontext"' in lab or '"readonly"' in lab or '"read"' in lab or lab.startswith(("Enter", "Exit", "Do(")))
-        if prop in ("C03", "C04", "C09", "C10"):
-            return lab.startswith(("Ok(", "Setup"))
-        if prop == "C11":
-            return lab.startswith(("Ok(", "Setup")) or '"duplicate"' in lab or '"full"' in lab or '"set"' in lab
-        return True
-    return sel
+NOCTX = ('"nocontext"', '"readonly"')
+
+
+def focus_for(prop, budget):
+    """list of (edge predicate, max_edges or None) - what a tour for `prop` should spend its steps on"""
+    def has(*words):
+        return lambda s, d, lab: any(w in lab for w in words)
+
+    def ok_edges(s, d, lab):
+        return lab.startswith(("Ok(", "Setup"))
+
+    def refusal_in_ctx(s, d, lab):
+        return lab.startswith("No(") and not any(w in lab for w in NOCTX)
+
+    anything = lambda s, d, lab: True  # noqa: E731
+    if prop == "C07":
+        return [(has('"hole"'), None), (has('"full"'), budget // 5), (refusal_in_ctx, budget // 2), (ok_edges, budget // 5),
+                (anything, budget // 10)]
+    if prop == "C08":
+        return [(has(*NOCTX, '"read"', "Enter", "Exit", "allow_write"), int(budget * 0.7)), (anything, int(budget * 0.3))]
+    if prop == "C11":
+        return [(has('"duplicate"', '"full"', '"set"'), budget // 2), (ok_edges, budget // 3), (anything, budget // 6)]
+    return [(ok_edges, int(budget * 0.7)), (has('"hole"'), None), (anything, int(budget * 0.3))]
 
 
 def execute_tour(name, labs, conc_seed, workdir, descs):
@@ -139,8 +149,7 @@ def run_campaign(run, name, budget, seed, focus_prop, exhaustive_tour=False, mc=
     if exhaustive_tour:
         gens = [tours.tours(init, adj, rng, max_len=60)]
     else:
-        gens = [tours.tours(init, adj, rng, max_len=60, select=select_for(focus_prop), max_edges=int(budget * 0.7)),
-                tours.tours(init, adj, rng, max_len=60, max_edges=int(budget * 0.3))]
+        gens = [tours.tours(init, adj, rng, max_len=60, select=sel, max_edges=cap) for sel, cap in focus_for(focus_prop, budget)]
     k = 0
     for g in gens:
         for labs in g:
